@@ -36,7 +36,7 @@ RULE = ("messages over the JSON-native domain (boundary integers/floats, control
         "nesting >=3; distinct by hash of the message. json_default 'e' handles the application's types only and refuses everything else without "
         "delegating: what the encoder writes by itself (dates, times, datetimes, tuples) must not depend on it. part 'shutdown': fresh "
         "interpreters whose leftover objects log Path/set/complex/date/... values from __del__ while the interpreter is torn down, into "
-        "FileDestinations on stdout (text, binary, to_file): one faithful line per message offered")
+        "FileDestinations on stdout (text, binary, to_file): one faithful line per message offered. part 'env' and the 'blocked' batches: the same oracle in differently configured environments - optional third-party modules blocked the standard way (sys.modules[name] = None for numpy / pydantic / pandas / polars / orjson, before or after eliot is imported; in the forked case for the main generator, and in fresh interpreters) and fresh interpreters started with -bb, -b -W error, -W error, -O, where messages holding JSON-native and rich values (Path, set, complex, date, datetime, time, tuple, a delegating json_default's type) are offered, directly and through the logging API, to binary and text FileDestinations on in-memory and real files: every message has exactly one faithful line in every file, in order, and binary and text files hold the same bytes")
 ASSUMPTIONS = ["value domain bounded by orjson's own limits (64-bit integers, nesting < 254, valid Unicode)"]
 BATCH = 500
 
@@ -161,7 +161,300 @@ def plan(tier, seed):
     if tier == "quick":
         combos = [c_ for d in shutdown.DESTS for c_ in [x for x in combos if x[0] == d][:3]]  # three per kind of destination
     specs += [{"part": "shutdown", "seed": seed, "dest": d, "how": hw, "value": v} for d, hw, v in combos]
+    # the main generator with optional third-party modules blocked in the (forked) case's interpreter
+    kb = 6 if tier == "quick" else 60
+    for i in range(kb):
+        r = random.Random("%s:C10:blocked:%d" % (seed, i))
+        blocked = [m for m in OPTIONAL_MODULES if r.random() < 0.5] or [OPTIONAL_MODULES[i % len(OPTIONAL_MODULES)]]
+        if i % 2 == 0 and not set(blocked) & {"numpy", "pydantic"}:
+            blocked.insert(0, OPTIONAL_MODULES[(i // 2) % 2])  # (those two are looked up before eliot's own encodings of Path/date/set/complex are tried)
+        specs.append({"seed": seed, "lo": 2 * 10**7 + i * BATCH, "hi": 2 * 10**7 + (i + 1) * BATCH, "tier": tier, "blocked": blocked})
+    # fresh interpreters: warning / optimisation flags x blocked optional modules
+    ne = 10 if tier == "quick" else 150
+    for j in range(ne):
+        r = random.Random("%s:C10:env:%d" % (seed, j))
+        flags = ENV_FLAGS[j % len(ENV_FLAGS)]
+        blocked = []
+        if j % 3 != 2:
+            blocked = [m for m in OPTIONAL_MODULES + ["orjson"] if r.random() < 0.4] or [r.choice(OPTIONAL_MODULES)]
+            if j % 3 == 0 and not set(blocked) & {"numpy", "pydantic"}:
+                blocked.insert(0, r.choice(["numpy", "pydantic"]))
+        specs.append({"part": "env", "seed": seed, "j": j, "tier": tier, "flags": flags, "blocked": blocked, "when": r.choice(["before", "after"]),
+                      "json_default": r.choice(["none", "delegating"])})
     return specs
+
+
+OPTIONAL_MODULES = ["numpy", "pydantic", "pandas", "polars"]  # what eliot's json_default looks up in sys.modules without requiring it
+ENV_FLAGS = [["-bb"], ["-b", "-W", "error"], [], ["-bb", "-O"], ["-W", "error"]]
+
+ENV_CHILD = r'''
+import sys
+spec = __import__("json").loads(sys.stdin.read())
+if spec["when"] == "before":
+    for name in spec["blocked"]:
+        sys.modules[name] = None  # Python's own marker for "this import is blocked"
+sys.path.insert(0, spec["repo"])
+import base64, datetime, io, json, os
+from pathlib import Path
+import eliot
+from eliot import FileDestination, add_destinations, log_message, start_action
+from eliot.json import json_default
+if spec["when"] == "after":
+    for name in spec["blocked"]:
+        sys.modules[name] = None
+
+
+class Custom(object):
+    def __init__(self, v):
+        self.v = v
+
+
+def delegating(o):
+    if isinstance(o, Custom):
+        return {"custom": o.v}
+    return json_default(o)
+
+
+def build(x):
+    if isinstance(x, list):
+        return [build(y) for y in x]
+    if isinstance(x, dict):
+        r = x.get("$rich")
+        if r is None:
+            return {k: build(v) for k, v in x.items()}
+        v = x["v"]
+        if r == "path":
+            return Path(v)
+        if r == "set":
+            return set(v)
+        if r == "complex":
+            return complex(v[0], v[1])
+        if r == "date":
+            return datetime.date(*v)
+        if r == "datetime":
+            return datetime.datetime(*v)
+        if r == "time":
+            return datetime.time(*v)
+        if r == "tuple":
+            return tuple(build(y) for y in v)
+        if r == "custom":
+            return Custom(build(v))
+        raise ValueError(r)
+    return x
+
+
+kw = {} if spec["json_default"] == "none" else {"json_default": delegating}
+files = {"mem_binary": io.BytesIO(), "mem_text": io.StringIO(),
+         "real_binary": open(os.path.join(spec["dir"], "b.log"), "wb"),
+         "real_text": open(os.path.join(spec["dir"], "t.log"), "w", encoding="utf-8", newline="\n")}
+order = ["mem_binary", "mem_text", "real_binary", "real_text"]
+dests = [FileDestination(file=files[n], **kw) for n in order]
+add_destinations(*dests)
+raised = []
+for m in spec["messages"]:
+    fields = build(m["fields"])
+    try:
+        if m["how"] == "direct":
+            full = dict(fields)
+            full.update(m["meta"])
+            for n, d in zip(order, dests):
+                try:
+                    d(dict(full))
+                except Exception as e:
+                    raised.append([m["meta"]["vf_k"], n, "%s: %s" % (type(e).__name__, e)])
+        elif m["how"] == "log_message":
+            log_message(message_type="c10:env", vf_k=m["meta"]["vf_k"], **fields)
+        else:
+            with start_action(action_type="c10:env", vf_k=m["meta"]["vf_k"], **fields) as a:
+                a.add_success_fields(vf_k=m["meta"]["vf_k"])
+    except Exception as e:
+        raised.append([m["meta"]["vf_k"], m["how"], "%s: %s" % (type(e).__name__, e)])
+out = {"eliot": eliot.__file__, "raised": raised, "bytes_warning": sys.flags.bytes_warning, "optimize": sys.flags.optimize,
+       "blocked": [n for n in spec["blocked"] if n in sys.modules and sys.modules[n] is None], "files": {}}
+out["files"]["mem_binary"] = base64.b64encode(files["mem_binary"].getvalue()).decode("ascii")
+out["files"]["mem_text"] = base64.b64encode(files["mem_text"].getvalue().encode("utf-8")).decode("ascii")
+for n, fn in (("real_binary", "b.log"), ("real_text", "t.log")):
+    files[n].close()
+    with open(os.path.join(spec["dir"], fn), "rb") as f:
+        out["files"][n] = base64.b64encode(f.read()).decode("ascii")
+sys.stdout.write("\n@@C10-ENV@@" + json.dumps(out) + "\n")
+sys.stdout.flush()
+'''
+
+
+def gen_tagged_rich(rng, custom_ok):
+    """-> (tagged form the child interpreter rebuilds the value from, expected decoded image)"""
+    r = rng.randrange(9 if custom_ok else 8)
+    if r == 0:
+        p = pathlib.Path(rng.choice(["/tmp/x", "rel/p.txt", ".", "/a b/\u00e9", "/var/log/\U0001f600.log", "a\\b/c\"d"]))
+        return {"$rich": "path", "v": str(p)}, str(p)
+    if r == 1:
+        items = rng.sample([1, 2, 3, "a", "b", 2.5, None, True, "\u00e9"], rng.randint(0, 5))
+        return {"$rich": "set", "v": items}, ("set", set(items))
+    if r == 2:
+        c = complex(gen.gen_float(rng), rng.choice([0.0, -0.0, 1.5, -2.0]))
+        return {"$rich": "complex", "v": [c.real, c.imag]}, {"real": c.real, "imag": c.imag}
+    if r == 3:
+        a = [rng.randint(1, 9999), rng.randint(1, 12), rng.randint(1, 28)]
+        return {"$rich": "date", "v": a}, datetime.date(*a).isoformat()
+    if r == 4:
+        a = [rng.randint(1, 9999), rng.randint(1, 12), rng.randint(1, 28), rng.randint(0, 23), rng.randint(0, 59), rng.randint(0, 59), rng.choice([0, 1, 999999])]
+        return {"$rich": "datetime", "v": a}, datetime.datetime(*a).isoformat()
+    if r == 5:
+        a = [rng.randint(0, 23), rng.randint(0, 59), rng.randint(0, 59), rng.choice([0, 5, 999999])]
+        return {"$rich": "time", "v": a}, datetime.time(*a).isoformat()
+    if r == 6:
+        v = [gen.gen_scalar(rng) for _ in range(rng.randint(0, 3))]
+        return {"$rich": "tuple", "v": v}, list(v)
+    if r == 7:
+        # a rich value inside containers
+        t, e = gen_tagged_rich(rng, custom_ok)
+        if isinstance(e, tuple):
+            return {"$rich": "path", "v": "nested/p"}, "nested/p"
+        return {"in": [t, {"k": t}]}, {"in": [e, {"k": e}]}
+    v = gen.gen_value(rng, 1)
+    return {"$rich": "custom", "v": v}, {"custom": v}
+
+
+def env_case(spec):
+    """One fresh interpreter, started with spec['flags'], in which spec['blocked'] optional modules are blocked the standard way:
+    messages over the JSON-native domain and the documented rich types go to binary and text FileDestinations (in memory and on
+    real files), directly and through the logging API. The parent knows every message and judges what the files hold."""
+    import base64
+    import os
+    import shutil
+    import subprocess
+    import tempfile
+    res = {"evals": 1, "nontrivial": [], "counters": {}, "violations": [], "sample": None}
+    rng = random.Random("%s:C10:envcase:%d" % (spec["seed"], spec["j"]))
+    custom_ok = spec["json_default"] == "delegating"
+    reserved = ("task_uuid", "task_level", "timestamp", "message_type", "action_type", "action_status", "vf_k", "$rich", "exception", "reason")
+    messages, expected = [], []
+    nrich = 0
+    for k in range(30 if spec["tier"] == "quick" else 100):
+        fields, exp = {}, {}
+        for _ in range(rng.randint(1, 4)):
+            key = gen.gen_key(rng)
+            if key in reserved:
+                continue
+            if rng.random() < 0.4:
+                fields[key] = exp[key] = gen.gen_value(rng, rng.choice([0, 1, 2]))
+            else:
+                fields[key], exp[key] = gen_tagged_rich(rng, custom_ok)
+                nrich += 1
+        if k % 5 == 0 and "p" not in fields:
+            fields["p"], exp["p"] = {"$rich": "path", "v": "/srv/app/%d" % k}, "/srv/app/%d" % k  # (at least some rich values in every run)
+            nrich += 1
+        how = rng.choice(["direct", "log_message", "action"])
+        meta = {"vf_k": k}
+        if how == "direct":
+            meta.update({"task_uuid": "env-%d" % k, "task_level": [rng.randint(1, 9)], "timestamp": rng.choice([0.0, 1e9 + 0.123456, 1.5]), "message_type": "c10:env"})
+        messages.append({"how": how, "fields": fields, "meta": meta})
+        expected.append((how, exp, meta))
+    d = tempfile.mkdtemp(prefix="vf-c10-env-")
+    try:
+        env = {k_: v_ for k_, v_ in os.environ.items() if k_ not in ("PYTHONPATH", "PYTHONUNBUFFERED", "PYTHONWARNINGS", "PYTHONOPTIMIZE")}
+        child_spec = {"repo": REPO, "dir": d, "blocked": spec["blocked"], "when": spec["when"], "json_default": spec["json_default"], "messages": messages}
+        try:
+            proc = subprocess.run([_sys.executable] + list(spec["flags"]) + ["-c", ENV_CHILD], input=json.dumps(child_spec).encode("ascii"), env=env,
+                                  stdout=subprocess.PIPE, stderr=subprocess.PIPE, timeout=180, cwd=d, start_new_session=True)
+        except subprocess.TimeoutExpired:
+            return {"inconclusive": "the interpreter started with %s did not finish in time" % (spec["flags"],)}
+    finally:
+        shutil.rmtree(d, ignore_errors=True)
+    stderr = proc.stderr.decode("utf-8", "replace")
+    k = proc.stdout.rfind(b"@@C10-ENV@@")
+    if k < 0:
+        # the child's own program is trivial; it can only die on what the library does in this environment
+        if "Traceback" in stderr and ("eliot" in stderr):
+            res["violations"].append({"msg": "logging supported values in an interpreter started with %s, blocked modules %s (%s import): the program died: %s"
+                                             % (" ".join(spec["flags"]) or "no flags", spec["blocked"], spec["when"], stderr.strip().splitlines()[-1][:200]),
+                                      "mech": None, "detail": {"spec": spec, "stderr": stderr[-3000:]}})
+            return res
+        return {"inconclusive": "the environment probe died without a result (exit status %s): %s" % (proc.returncode, stderr[-300:])}
+    try:
+        out = json.loads(proc.stdout[k + len(b"@@C10-ENV@@"):].decode("utf-8"))
+    except Exception as e:
+        return {"inconclusive": "unreadable result of the environment probe: %r" % (e,)}
+    if not os.path.realpath(out["eliot"]).startswith(os.path.realpath(REPO) + os.sep):
+        return {"inconclusive": "the environment probe imported eliot from %s" % out["eliot"]}
+    want_bw = 2 if "-bb" in spec["flags"] else (1 if "-b" in spec["flags"] else 0)
+    if out["bytes_warning"] != want_bw or sorted(out["blocked"]) != sorted(spec["blocked"]):
+        return {"inconclusive": "the environment probe did not run in the requested environment: %r" % ({k_: out[k_] for k_ in ("bytes_warning", "optimize", "blocked")},)}
+    problems = []
+    where = "interpreter flags %s, blocked modules %s (%s eliot's import)" % (" ".join(spec["flags"]) or "none", spec["blocked"] or "none", spec["when"])
+    for kk, n, text in out["raised"]:
+        problems.append("%s: offering message %d (%s) raised %s" % (where, kk, n, text))
+    want_seq = []
+    for how, exp, meta in expected:
+        want_seq.append((meta["vf_k"], None if how != "action" else "started"))
+        if how == "action":
+            want_seq.append((meta["vf_k"], "succeeded"))
+    kept = {}
+    for name in ("mem_binary", "mem_text", "real_binary", "real_text"):
+        data = base64.b64decode(out["files"][name])
+        if data and not data.endswith(b"\n"):
+            problems.append("%s: the %s file does not end with a newline" % (where, name))
+        lines = data.split(b"\n")[:-1] if data else []
+        objs = []
+        keep = []
+        failures = []
+        for ln in lines:
+            try:
+                obj = json.loads(ln.decode("utf-8"))
+                if not isinstance(obj, dict):
+                    raise ValueError("not an object")
+            except Exception as e:
+                problems.append("%s: a line of the %s file is not a UTF-8 JSON object: %r (%s)" % (where, name, ln[:80], e))
+                continue
+            if obj.get("message_type") == "eliot:destination_failure":
+                failures.append("%s: %s" % (obj.get("exception"), str(obj.get("reason"))[:160]))  # (a message eliot itself offered; not one of ours)
+                continue
+            objs.append(obj)
+            keep.append(ln)
+        kept[name] = keep
+        got_seq = [(o.get("vf_k"), o.get("action_status")) for o in objs]
+        if got_seq != want_seq:
+            missing = [x for x in want_seq if x not in got_seq]
+            problems.append("%s: %d messages were offered to the %s file destination, it holds lines for %d of them (%s; first missing (k, action status): %s%s)"
+                            % (where, len(want_seq), name, len([x for x in got_seq if x in want_seq]),
+                               "order/multiplicity differs" if not missing else "%d missing" % len(missing), missing[:3],
+                               "; destination failures reported: %s" % failures[:2] if failures else ""))
+            continue
+        by_k = {}
+        for o in objs:
+            by_k.setdefault(o["vf_k"], []).append(o)
+        for how, exp, meta in expected:
+            o = by_k[meta["vf_k"]][0]
+            if how == "direct":
+                full = dict(exp)
+                full.update(meta)
+                if set(o) != set(full):
+                    problems.append("%s: %s file: keys %r != %r" % (where, name, sorted(o), sorted(full)))
+                exp_here = full
+            else:
+                exp_here = exp
+            for key, e in exp_here.items():
+                if key not in o:
+                    problems.append("%s: %s file: field %r of message %d is missing" % (where, name, key, meta["vf_k"]))
+                elif not match(e, o[key]):
+                    problems.append("%s: %s file: field %r decodes to %r, logged %r" % (where, name, key, o[key], e))
+    if len(kept) == 4 and not problems:
+        for a_, b_ in (("mem_binary", "mem_text"), ("real_binary", "real_text"), ("mem_binary", "real_binary")):
+            if kept[a_] != kept[b_]:
+                problems.append("%s: the %s and %s files received different content for the same messages" % (where, a_, b_))
+    c = res["counters"]
+    c["environment_interpreters"] = 1
+    c["write_calls_checked"] = 4 * len(want_seq)
+    c["rich_values"] = nrich
+    if spec["blocked"]:
+        c["messages_logged_with_optional_modules_blocked"] = len(messages)
+    if want_bw and ("-bb" in spec["flags"] or "error" in spec["flags"]):
+        c["messages_logged_with_bytes_warnings_as_errors"] = len(messages)
+    res["nontrivial"].append(h(["env", spec["flags"], spec["blocked"], spec["when"], spec["json_default"], spec["j"]]))
+    if problems:
+        res["violations"].append({"msg": problems[0], "mech": None, "detail": {"part": "env", "spec": spec, "problems": problems[:8], "stderr": stderr[-1500:]}})
+    return res
 
 
 def shutdown_case(spec):
@@ -652,6 +945,8 @@ def run_case(spec):
     res = {"evals": 0, "nontrivial": [], "counters": {}, "violations": [], "sample": None}
     if spec.get("part") == "shutdown":
         return shutdown_case(spec)
+    if spec.get("part") == "env":
+        return env_case(spec)
     if spec.get("part") == "realtext":
         for i in range(spec["lo"], spec["hi"]):
             realtext_case(spec["seed"], i, res)
@@ -664,11 +959,17 @@ def run_case(spec):
         for i in range(spec["lo"], spec["hi"]):
             faulty_file_case(spec["seed"], i, res)
         return res
+    if spec.get("blocked"):
+        # the standard way to block an import (what test suites do to simulate a missing optional dependency); this is a forked child
+        for name in spec["blocked"]:
+            _sys.modules[name] = None
     pool = {}
     for i in range(spec["lo"], spec["hi"]):
         if i % 50 == 0:
             pool.clear()  # fresh destinations from time to time, long-lived ones in between
         one(spec["seed"], i, spec["tier"], res, pool)
+    if spec.get("blocked"):
+        res["counters"]["messages_logged_with_optional_modules_blocked"] = spec["hi"] - spec["lo"]
     return res
 
 
@@ -680,6 +981,10 @@ def finalize(agg, tier):
         return "too few file faults injected"
     if c.get("messages_offered_during_interpreter_shutdown", 0) < 9:
         return "too few messages were offered during interpreter shutdown"
+    if c.get("messages_logged_with_optional_modules_blocked", 0) < 100:
+        return "too few messages were logged while optional third-party modules were blocked"
+    if c.get("messages_logged_with_bytes_warnings_as_errors", 0) < 30:
+        return "too few messages were logged in interpreters that turn bytes/str comparisons into errors"
     if c.get("json_default_e", 0) < 100:
         return "the non-delegating json_default was rarely used"
     return None
